@@ -436,8 +436,9 @@ func (d *Descriptor) readAsJSON(out Outputter, data []byte) (n int, err error) {
 
 func (d *Descriptor) readJSONObjectKV(out Outputter, data []byte) (n int, err error) {
 	var (
-		jType  jsonType
-		offset int
+		jType    jsonType
+		offset   int
+		hasValue bool
 	)
 
 	for offset < len(data) {
@@ -473,6 +474,7 @@ func (d *Descriptor) readJSONObjectKV(out Outputter, data []byte) (n int, err er
 			jType = jsonType(v)
 			offset += n
 		case 3:
+			hasValue = true
 			switch jType {
 			case jsonTypeString:
 				l, n := plenccore.ReadVarUint(data[offset:])
@@ -557,6 +559,11 @@ func (d *Descriptor) readJSONObjectKV(out Outputter, data []byte) (n int, err er
 		default:
 			return 0, fmt.Errorf("unexpected json field index %d", index)
 		}
+	}
+
+	if !hasValue {
+		// nil values have a type but no value field
+		out.Raw("null")
 	}
 
 	return offset, nil
